@@ -1,7 +1,9 @@
 /-
-  Props/C01 — property theorems over M-Core (see DESIGN.md §4 C01).
+  Props/C01 — rollapp state updates form one gap-free chain posted only by the proposer.
+  Property theorems over M-Core, for every parameter value and every operation sequence.
 -/
-import DymVerif.Model.Core
+import DymVerif.Lemmas.CoreChainInv2
+import DymVerif.Lemmas.CoreSearch
 namespace DymVerif.C01
 open DymVerif DymVerif.Core
 
@@ -13,5 +15,163 @@ theorem reject_unchanged (s : St) (o : Op) (e : Err) (h : (step s o).2 = some e)
   cases h' : apply s o with
   | ok s' => simp [h'] at h
   | error e' => simp [h']
+
+/-- **Gap-free chain, every reachable state.**  For every parameter set and every sequence of
+    operations (create / bond / rotate / kick / update / fraud-fork / obsolete / blocks with arbitrary
+    injected finalization failures), the recorded states of every rollapp are numbered 1..n by
+    position, each is well formed (≥ 1 block, descriptors exactly its heights in order) and each
+    starts exactly one block after the previous one ends — forks included, because a fork truncates
+    the kept state to a positive number of blocks or keeps its predecessor. -/
+theorem chain_inv (p : Params) (ops : List Op) (r : Rollapp) (hr : r ∈ (run p ops).ras) :
+    Chain r.states := run_chain p ops r hr
+
+/-- what an accepted update satisfied at the moment it was accepted -/
+theorem update_accept_spec (s s' : St) (m : UpdMsg) (h : apply s (.update m) = .ok s') :
+    ∃ r, getRa s m.ra = some r ∧
+      r.proposer = some m.sender ∧                       -- sent by the proposer of that moment
+      latestRev r = m.rev ∧                              -- carries the current revision
+      (∀ a, r.states.getLast? = some a → m.start = a.start + a.num) ∧   -- starts right after the last state
+      1 ≤ m.num ∧ m.bds.length = m.num ∧ 1 ≤ m.start ∧
+      (∀ i b, m.bds[i]? = some b → b.height = m.start + i ∧ b.rootOk = true) ∧  -- consistent descriptors
+      s.obsolete.contains ((m.bds.getLast?.map (·.drs)).getD 0) = false ∧      -- DRS version not obsolete
+      (m.last = true → awaitingLast s r = true) := by                           -- 'last' only in a rotation
+  simp only [apply] at h
+  unfold updateState at h
+  split at h
+  · cases h
+  · rename_i hvb
+    split at h
+    · cases h
+    · rename_i r hg
+      split at h
+      · cases h
+      · rename_i hprop
+        split at h
+        · cases h
+        · rename_i hlast
+          split at h
+          · cases h
+          · rename_i hrev
+            split at h
+            · cases h
+            · rename_i hpre
+              split at h
+              · cases h
+              · rename_i hobs
+                have hw := updValidateBasic_wf hvb s NextP.empty
+                refine ⟨r, hg, by simpa using hprop, by simpa using hrev, updPre_start hpre, hw.num_pos, hw.bds_len,
+                  hw.start_pos, ?_, by simpa using hobs, ?_⟩
+                · intro i b hb
+                  refine ⟨hw.bds_seq i b hb, ?_⟩
+                  -- the root flag: from validateBDs
+                  have : ∀ (bds : List BD) (k : Nat), validateBDs m.start k bds = .ok () → ∀ (i : Nat) (b : BD), bds[i]? = some b → b.rootOk = true := by
+                    intro bds
+                    induction bds with
+                    | nil => intro k _ i b hb; simp at hb
+                    | cons x xs ih =>
+                      intro k hv i b hb
+                      unfold validateBDs at hv
+                      split at hv
+                      · cases hv
+                      · split at hv
+                        · cases hv
+                        · rename_i _ hroot
+                          cases i with
+                          | zero => simp at hb; subst hb; simpa using hroot
+                          | succ j => simp at hb; exact ih (k + 1) hv j b hb
+                  unfold updValidateBasic at hvb
+                  split at hvb
+                  · cases hvb
+                  · split at hvb
+                    · cases hvb
+                    · split at hvb
+                      · cases hvb
+                      · split at hvb
+                        · cases hvb
+                        · exact this m.bds 0 hvb i b hb
+                · intro hl
+                  rw [hl] at hlast
+                  simpa using hlast
+
+/-- looking a height up returns only a state that contains it -/
+theorem lookup_sound (r : Rollapp) (h i : Nat) (e : findByHeight r h = some i) :
+    ∃ st, r.states[i - 1]? = some st ∧ st.contains h = true := findByHeight_sound r h i e
+
+/-- **Lookup is exact in every reachable state**: a height contained in the state with (1-based)
+    index k is found, and it is that index (uniqueness: the search returns a container, and the
+    container it must return is k). -/
+theorem lookup_complete (p : Params) (ops : List Op) (r : Rollapp) (hr : r ∈ (run p ops).ras)
+    (h k : Nat) (st : SInfo) (hk : r.states[k]? = some st) (h1 : st.start ≤ h) (h2 : h ≤ st.start + st.num - 1) :
+    findByHeight r h = some (k + 1) := by
+  have hc := chain_inv p ops r hr
+  have hwst := hc.wf st (List.mem_of_getElem? hk)
+  have hklt : k < r.states.length := by
+    rcases Nat.lt_or_ge k r.states.length with h3 | h3
+    · exact h3
+    · rw [List.getElem?_eq_none h3] at hk; cases hk
+  unfold findByHeight
+  rw [if_neg (by have := hwst.start_pos; omega)]
+  cases hl : r.states.getLast? with
+  | none =>
+    have : r.states = [] := by simpa using hl
+    rw [this] at hklt; simp at hklt
+  | some l =>
+    dsimp only
+    have hwl := hc.wf l (List.mem_of_getLast? hl)
+    have hll : r.states[r.states.length - 1]? = some l := by rw [← List.getLast?_eq_getElem?]; exact hl
+    have hle : st.start + st.num ≤ l.start + l.num := by
+      rcases Nat.lt_or_ge k (r.states.length - 1) with h3 | h3
+      · have := hc.mono' k (r.states.length - 1) st l h3 hk hll
+        have := hwl.num_pos; omega
+      · have : k = r.states.length - 1 := by omega
+        rw [this, hll] at hk; injection hk with hk; subst hk; exact Nat.le_refl _
+    have hlast : l.last = l.start + l.num - 1 := by
+      unfold SInfo.last; rw [if_pos (by have := hwl.num_pos; omega)]
+    rw [if_neg (by rw [hlast]; have := hwst.num_pos; omega)]
+    exact findByHeightAux_complete r.states hc h _ 1 r.states.length (k + 1) st (by simpa using hk)
+      ((contains_iff st h hwst).2 ⟨h1, h2⟩) (Nat.le_refl _) (by omega) (by omega) (Nat.le_refl _) (by omega)
+
+/-- nothing is returned for height 0 and for heights above the latest one -/
+theorem lookup_none_beyond (r : Rollapp) (h : Nat)
+    (hb : h = 0 ∨ ∀ l, r.states.getLast? = some l → l.last < h) : findByHeight r h = none := by
+  unfold findByHeight
+  rcases hb with h0 | hb
+  · rw [if_pos h0]
+  · split
+    · rfl
+    · split
+      · rfl
+      · rename_i l hl
+        rw [if_pos (hb l hl)]
+
+/-- every height between the first state's start and the latest height has exactly one container,
+    and the lookup returns it (so "for every height up to the latest, exactly the one update that
+    contains it") -/
+theorem lookup_total (p : Params) (ops : List Op) (r : Rollapp) (hr : r ∈ (run p ops).ras)
+    (first last : SInfo) (hf : r.states[0]? = some first) (hl : r.states.getLast? = some last)
+    (h : Nat) (h1 : first.start ≤ h) (h2 : h ≤ last.start + last.num - 1) :
+    ∃ k st, r.states[k]? = some st ∧ st.start ≤ h ∧ h ≤ st.start + st.num - 1 ∧ findByHeight r h = some (k + 1) := by
+  have hc := chain_inv p ops r hr
+  have hll : r.states[r.states.length - 1]? = some last := by rw [← List.getLast?_eq_getElem?]; exact hl
+  obtain ⟨k, st, _, hk, hs1, hs2⟩ := hc.container first hf h h1 (r.states.length - 1) last hll h2
+  exact ⟨k, st, hk, hs1, hs2, lookup_complete p ops r hr h k st hk hs1 hs2⟩
+
+-- non-vacuity: a concrete history (two updates, the second one by the same proposer) is accepted
+-- and yields a two-element chain
+def exParams : Params where
+  dispute := 2
+  lsBlocks := 5
+  lsInterval := 2
+  lsMul := ⟨0⟩
+  lsAbs := 0
+  dishonorSU := 1
+  dishonorL := 1
+  kickThr := 2
+  noticePeriod := 10
+def exBds (start n : Nat) : List BD := (List.range n).map fun i => { height := start + i, hasTs := true, drs := 1, rootOk := true }
+def exOps : List Op := [.createRollapp 0 9 10, .fund 1 100, .createSeq 1 0 10 true,
+  .update { ra := 0, sender := 1, start := 1, num := 3, rev := 0, last := false, bds := exBds 1 3 },
+  .update { ra := 0, sender := 1, start := 4, num := 2, rev := 0, last := false, bds := exBds 4 2 }]
+example : ((run exParams exOps).ras.map fun r => r.states.map fun s => (s.start, s.num)) = [[(1, 3), (4, 2)]] := by decide
 
 end DymVerif.C01
